@@ -539,6 +539,19 @@ func c03roundTrip(c *h.Ctx, r *h.Rand, layers mvt.Layers, collection bool) {
 			fail(key, p.name+": decoded layers differ from the model of the format", diff)
 			return
 		}
+		for _, l := range got {
+			for fi, f := range l.Features {
+				if !partsIndependent(f.Geometry) {
+					fail("", p.name+": parts of one decoded geometry share memory (appending to one part overwrites another)", map[string]interface{}{"layer": l.Name, "feature": fi, "now": sv(f.Geometry)})
+					return
+				}
+			}
+		}
+	}
+	// Marshal does not change what it was given: the caller's layers still encode to the same bytes, and the
+	// feature lists are as long as they were
+	if d3, err := mvt.Marshal(layers); err != nil || !bytes.Equal(d3, data) {
+		fail("", "marshalling the caller's layers once more gives different bytes (Marshal changed its argument?)", sv(err))
 	}
 }
 
